@@ -202,7 +202,7 @@ def translate(target, repo=None):
 
 def regenerate(pid, group, res):
     """Translate, compile Gen_arith.v and the group's lemma file against it. Records obligations in `res`."""
-    d = os.path.join(C.BUILD, "gen", f"{pid}_{group}")
+    d = os.path.join(C.BUILD, "gen", f"{pid}_{group}_{os.getpid()}")
     shutil.rmtree(d, ignore_errors=True)
     os.makedirs(d)
     proofs_src = os.path.join(C.COQ, "gen", f"GenProofs_{group}.v")
@@ -227,5 +227,6 @@ def regenerate(pid, group, res):
                                  "output": out[-2000:], "generated": text})
     else:
         res.extra_discharged += n_obl
+        shutil.rmtree(d, ignore_errors=True)     # kept only when something failed
     res.stats[f"regenerated definitions ({group})"] = len(TARGETS[group])
     return text
